@@ -51,6 +51,33 @@ struct Spec {
     /// the error type of the crate's `Result<T>` alias
     #[serde(default)]
     result_error: Option<String>,
+    /// `str` / `String` are Coq strings (only ASCII literals and `==` are in the subset)
+    #[serde(default)]
+    strings: bool,
+    /// name of the generated Coq module (default `Gen`)
+    #[serde(default)]
+    module: Option<String>,
+    /// types whose values are opaque tokens (rendered as N; no operation on them is in the subset: they can only
+    /// be passed around, so a generated function is parametric in them)
+    #[serde(default)]
+    tokens: Vec<String>,
+    /// types whose values are left out altogether (rendered as unit; an expression of such a type is not looked at)
+    #[serde(default)]
+    omit_types: Vec<String>,
+    /// generic wrappers `f(v, ..)` that are translated as their first argument (`Source::track_override(v, o)` is `v`
+    /// for the source-less instance; the source tracking is dropped)
+    #[serde(default)]
+    transparent_calls: Vec<String>,
+    /// methods without influence on a decision (setters of display data): a statement made of calls of these on a
+    /// local is dropped
+    #[serde(default)]
+    ignore_methods: Vec<String>,
+    /// methods whose arguments are ignored when a call is read as an observer of a view (`req_tx.send(_)`)
+    #[serde(default)]
+    observer_calls: Vec<String>,
+    /// Rust items (enums, impls) that stand in for types of external crates; parsed like a source file
+    #[serde(default)]
+    extern_items: Vec<String>,
     requests: Vec<Request>,
 }
 
@@ -98,6 +125,27 @@ struct Request {
     /// call_trace: functions / methods whose body is followed when a receiver is handed to them
     #[serde(default)]
     inline: Vec<String>,
+    /// local_value / effect_list / closure_value: where to look: a path of {"arm": pattern-prefix} | {"for": pattern} |
+    /// {"closure_of": call-name} steps, each narrowing the search to the body of that arm / loop / closure
+    #[serde(default)]
+    scope: Vec<serde_json::Value>,
+    /// local_value: only a hit that is (part of) a direct statement of the scoped block counts
+    #[serde(default)]
+    top: bool,
+    /// `a - b` on unsigned integers is N.sub in this request (an underflow would panic: out of scope, like overflow)
+    #[serde(default)]
+    allow_sub: bool,
+    /// captured counters whose updates (`x += 1` inside a closure) are dropped: they do not influence the value
+    #[serde(default)]
+    ignore_assign: Vec<String>,
+    /// local_value: methods that modify a `let mut` the value depends on in place and are NOT translated (the value is
+    /// the one before them: `sort_by_key` makes the queue a permutation of it); any other in-place modification or
+    /// assignment of such a local is an error
+    #[serde(default)]
+    inplace: Vec<String>,
+    /// loop_body: the mutable locals declared before the loop that the body updates: name -> Rust type
+    #[serde(default)]
+    state: Vec<(String, String)>,
 }
 
 // ---------------------------------------------------------------------------------------- errors
@@ -418,6 +466,14 @@ enum Ty {
     Option(Box<Ty>),
     Tuple(Vec<Ty>),
     Result(Box<Ty>, Box<Ty>),
+    /// slices, vectors, iterators, maps (as lists of pairs)
+    List(Box<Ty>),
+    /// an opaque token (spec `tokens`): N, no operations
+    Token(String),
+    /// a value that is left out (spec `omit_types`): unit
+    Omitted,
+    /// string literals
+    Str,
 }
 
 impl Ty {
@@ -431,6 +487,10 @@ impl Ty {
             Ty::Option(t) => format!("(option {})", t.coq()),
             Ty::Tuple(ts) => format!("({})", ts.iter().map(|t| t.coq()).collect::<Vec<_>>().join(" * ")),
             Ty::Result(a, b) => format!("(sum {} {})", a.coq(), b.coq()),
+            Ty::List(t) => format!("(list {})", t.coq()),
+            Ty::Token(_) => "N".into(),
+            Ty::Omitted => "unit".into(),
+            Ty::Str => "string".into(),
         }
     }
 }
@@ -503,6 +563,16 @@ struct Env {
     /// struct name)
     local_state: Option<(String, String)>,
     ret: Option<Ty>,
+    /// mutable locals that are threaded through the statements: (rust name, coq name, type)
+    vars: Vec<(String, String, Ty)>,
+    /// the block is the body of a loop translated on its own: `continue` ends it with the current state
+    loop_body: bool,
+    /// events sent on the path so far (closure_value requests): variant names of the request's `events` enum
+    events: Vec<String>,
+    /// Some(enum): `x.send(Enum::Variant ..)` statements are recorded as events
+    events_enum: Option<String>,
+    allow_sub: bool,
+    ignore_assign: Vec<String>,
 }
 
 impl Env {
@@ -542,6 +612,8 @@ enum K<'a> {
     State,
     /// continue with these statements in this environment
     Then(&'a [Stmt], Env, &'a K<'a>),
+    /// the result is the current value of these threaded locals (a tuple; one local: itself)
+    Vars(Vec<String>),
 }
 
 include!("../decisions/types.rs");
